@@ -17,6 +17,8 @@ pub struct Obs {
     stuck: BTreeMap<usize, (u64, Vec<u8>)>,
     pub fed: u64,
     pub removal_commits_nontrivial: u64,
+    /// init secret of the epoch that is about to end, as every member (also the ones about to be removed) holds it
+    pre_init_secret: Option<Vec<u8>>,
 }
 
 fn fail(what: &str, detail: String) -> Failure {
@@ -237,11 +239,32 @@ impl Observer for Obs {
 
     fn before_commit(&mut self, w: &mut World, _committer: usize) -> CaseResult {
         self.pre_tree = w.members().first().map(|m| w.parties[*m].g().export_tree().to_bytes().unwrap_or_default());
+        self.pre_init_secret = w.members().first().map(|m| w.parties[*m].g().verif_epoch_keys().key_schedule.init_secret);
         Ok(())
     }
 
     fn after_commit(&mut self, w: &mut World, info: &CommitInfo, _st: &HistoryStats) -> CaseResult {
         self.check_recipients(w, info)?;
+        // What a removed member still knows is the old epoch's init secret and everything public. With no fresh commit secret
+        // (and no PSK) that is all the new epoch is made of: the reference key schedule with commit_secret = 0 must NOT
+        // arrive at the members' new epoch authenticator when somebody was removed.
+        if !info.removed.is_empty() {
+            if let (Some(init), Some(m)) = (self.pre_init_secret.clone(), w.members().first().copied()) {
+                use mls_rs::mls_rs_codec::MlsEncode;
+                let s = crate::refmodel::keysched::Suite::new(w.cfg.suite);
+                let ctx = w.parties[m].g().context().mls_encode_to_vec().expect("ctx");
+                let zero = vec![0u8; s.nh()];
+                let guess = crate::refmodel::keysched::key_schedule(&s, &init, &zero, &ctx, &zero);
+                let auth = w.parties[m].g().epoch_authenticator().map(|a| a.as_bytes().to_vec()).unwrap_or_default();
+                self.ev.class("removal_commits_checked_for_fresh_commit_secret");
+                if guess.epoch_authenticator == auth {
+                    return Err(fail(
+                        "removed_member_can_derive_the_new_epoch",
+                        format!("epoch {}: the commit removed {:?} but the new epoch follows from the old init secret and public data alone (all-zero commit secret, path sent: {})", w.epoch, info.removed, info.had_path),
+                    ));
+                }
+            }
+        }
         // a rejoining party is a member again
         for j in &info.joined {
             self.stuck.remove(j);
@@ -284,7 +307,7 @@ pub fn run(ctx: &Ctx) -> ! {
          authenticator stay put and differ from the members'. Non-trivial = a removing commit while the tree has a blank or unmerged leaf, or removed leaf sibling of the committer.",
         &hp,
         spec,
-        &|_, ev| Obs { ev, pre_tree: None, wire_seen: 0, stuck: BTreeMap::new(), fed: 0, removal_commits_nontrivial: 0 },
+        &|_, ev| Obs { ev, pre_tree: None, wire_seen: 0, stuck: BTreeMap::new(), fed: 0, removal_commits_nontrivial: 0, pre_init_secret: None },
         &|_, o| {
             o.ev.class_n("later_messages_rejected_by_removed_parties", o.fed);
             false
